@@ -1138,6 +1138,11 @@ def mutants(tree):
                "            double fac = _evaluate_se(xi + 2, xc + 2, exps + 1, nfeat - 2);",
                "            if (xi[0] == xi[1] || xc[0] == xc[1]) {\n                continue;\n            }\n            double fac = _evaluate_se(xi + 2, xc + 2, exps + 1, nfeat - 2);",
                expect="grad-pairing"),
+        Mutant("gradient helper adds a term only when its weighted factor exceeds an absolute tolerance", MU_C_REL,
+               "        grad[j] += 2 * exps[j] * (x1[j] - x0[j]) * fac;\n",
+               "        double w = 2 * exps[j] * fac;\n        if (w > 1e-14 || w < -1e-14) {\n"
+               "            grad[j] += w * (x1[j] - x0[j]);\n        }\n",
+               expect="grad-pairing"),
         Mutant("linear evaluator overwrites res", XE, "res[:] += X1.dot(self.consts)", "res[:] = X1.dot(self.consts)",
                expect="accumulate-py"),
         Mutant("spline evaluator overwrites dres columns", XE, "dres[:, ind_set] += dy * self.scale[t]",
